@@ -34,6 +34,8 @@ class State:
     """Mutable holder of the current kernel (module-global on purpose)."""
     kernel = None
     unmodelled = []
+    at_fork_child = []
+    at_fork_before = []
 
 
 def cur():
@@ -163,6 +165,17 @@ def make_os():
     m.sysconf = lambda name: cur().k_sysconf(name)
     m.cpu_count = lambda: cur().ncpu_online
     m.getloadavg = lambda: (0.5, 0.25, 0.125)
+
+    def register_at_fork(*, before=None, after_in_parent=None,
+                         after_in_child=None):
+        # run by the simulated kernel when the program under test fork()s
+        # and goes on in the child (event fork_self)
+        if after_in_child is not None:
+            State.at_fork_child.append(after_in_child)
+        if before is not None:
+            State.at_fork_before.append(before)
+
+    m.register_at_fork = register_at_fork
 
     def walk(top, **kw):
         k = cur()
